@@ -252,6 +252,10 @@ func coreReplay(m map[string]string) error {
 		return err
 	}
 	randomLayouts := m["layouts"] == "random"
+	fixedTexts, err := loadFixedTexts(m["texts"])
+	if err != nil {
+		return err
+	}
 	orig := len(lines)
 	if m["bystander"] == "all" {
 		lines = append(lines, lines...)
@@ -278,6 +282,9 @@ func coreReplay(m map[string]string) error {
 			l = randomLayout(rnd)
 		}
 		texts := renderCase(c, l)
+		if t, ok := fixedTexts[c.ID]; ok {
+			texts = t // a hand-written script is replayed as it was written (core fromscripts)
+		}
 		// a bystander: another runner of this process (its own program, storer, host functions and
 		// commands under the same names), created before or after the runner under test and stepped
 		// now and then in between - what it does is nobody else's business
